@@ -226,7 +226,7 @@ func runC04(c *Ctx) {
 		)
 	}
 	c.Rule = "explicit-state BFS (state = reflective dump of *Shell + emulator grid + cursor) over insert a / wide glyph / combining mark / TAB / newline / pastes of W-1, W, W+1 glyphs / backward-delete-char / kill-line / unix-line-discard / backward-char / forward-char / beginning- and end-of-line / previous- and next-screen-line / clear-screen / transpose-chars, on narrow terminals with several prompts; the screen oracle is evaluated at every main-loop wait against an independent reference renderer. non-trivial = distinct states reached"
-	c.Assumptions = []string{"xterm-compatible terminal model written for the harness (cross-checked against tmux during development); an erase-to-end-of-line issued while a wrap is pending is accepted under either of the two common behaviours (erases the last cell / erases nothing)", "TAB is expected as the library documents it (5 blanks), not as a terminal tab stop", "the indent area of continuation rows belongs to the secondary prompt and is not compared"}
+	c.Assumptions = []string{"xterm-compatible terminal model written for the harness (cross-checked against tmux during development); the picture must be right under BOTH common behaviours of an erase issued while a wrap is pending (VT100/xterm erase the last cell, tmux/VTE erase nothing)", "TAB is expected as the library documents it (5 blanks), not as a terminal tab stop", "the indent area of continuation rows belongs to the secondary prompt and is not compared"}
 	classes := map[string]int64{}
 	for si, sc := range scen {
 		if c.Expired() {
